@@ -354,6 +354,17 @@ pub fn filler(rng: &mut Rng, depth: usize, forbidden: &[String], safe: bool) -> 
                 let (tag, content) = *rng.pick(&[("script", "var a = 1;"), ("style", "p { color: red }")]);
                 out.push(Node::El(plain_element(tag, &[], Kind::Normal, Some(content))));
             }
+            7 if rng.chance(1, 3) => {
+                // inline SVG: self-closing elements that are not HTML void elements, at depth 1 and 2
+                let mut svg = plain_element("svg", &[("viewBox", "0 0 4 4", 1)], Kind::Normal, None);
+                let mut g = plain_element("g", &[], Kind::Normal, None);
+                g.children = vec![Node::El(plain_element("circle", &[("r", "1", 1)], Kind::SelfClosing, None))];
+                svg.children = vec![Node::El(plain_element("path", &[("d", "M0 0h4", 1)], Kind::SelfClosing, None))];
+                if rng.coin() {
+                    svg.children.push(Node::El(g));
+                }
+                out.push(Node::El(svg));
+            }
             _ => {
                 let candidates: Vec<&&str> = FILLER_TAGS.iter().filter(|t| !forbidden.contains(&t.to_string())).collect();
                 let tag = **rng.pick(&candidates);
